@@ -73,9 +73,9 @@ PROPS = {
                    "returns a value or an error, never a panic (no slice out of range, no int overflow, no allocation larger "
                    "than the input), selectors are unambiguous; decoding the canonical encoding (what every ValidateSendBlock stores) "
                    "returns exactly the encoded values for every argument list of static elementary types, string, bytes and "
-                   "slices of static elementary types (unpack_pack_partial, receive_decodes_what_send_validated: all live "
-                   "methods except liquidity SetTokenTuple, whose string[] argument is checked by the abi stream only; the "
-                   "values are assumed to have the arguments' Go types, HasTys). Termination / "
+                   "slices of those - every method of every embedded ABI (unpack_pack_partial, flat_signatures, "
+                   "receive_decodes_what_send_validated; partial: fixed-size arrays, which no embedded ABI uses, are not "
+                   "covered, and the values are assumed to have the arguments' Go types, HasTys). Termination / "
                    "panic-freedom of the Go method bodies (DESIGN C09-T4, T5) is established by the autoreceive stream's "
                    "monitors only (no per-method Lean models). The decoder model bounds slice expressions by len, Go by cap "
                    "(model panic is necessary, not sufficient, for a Go panic). The ledger model's applySend does not run the "
